@@ -16,6 +16,8 @@ import numpy as np
 def cdf(family, theta, u, v):
     u = np.asarray(u, dtype=float)
     v = np.asarray(v, dtype=float)
+    if family in ('CLAYTON', 'FRANK') and float(theta) == 0.0:
+        family = 'INDEPENDENCE'          # the theta -> 0 limit of both families
     if family == 'CLAYTON':
         return np.power(np.power(u, -theta) + np.power(v, -theta) - 1.0, -1.0 / theta)
     if family == 'FRANK':
@@ -33,6 +35,8 @@ def hfunc(family, theta, u, v):
     """dC(u,v)/dv = P(U <= u | V = v)."""
     u = np.asarray(u, dtype=float)
     v = np.asarray(v, dtype=float)
+    if family in ('CLAYTON', 'FRANK') and float(theta) == 0.0:
+        family = 'INDEPENDENCE'          # the theta -> 0 limit of both families
     if family == 'CLAYTON':
         s = np.power(u, -theta) + np.power(v, -theta) - 1.0
         return np.power(v, -theta - 1.0) * np.power(s, -1.0 / theta - 1.0)
@@ -52,6 +56,8 @@ def hfunc(family, theta, u, v):
 def density(family, theta, u, v):
     u = np.asarray(u, dtype=float)
     v = np.asarray(v, dtype=float)
+    if family in ('CLAYTON', 'FRANK') and float(theta) == 0.0:
+        family = 'INDEPENDENCE'          # the theta -> 0 limit of both families
     if family == 'CLAYTON':
         s = np.power(u, -theta) + np.power(v, -theta) - 1.0
         return (theta + 1.0) * np.power(u * v, -theta - 1.0) * np.power(s, -2.0 - 1.0 / theta)
